@@ -5,6 +5,7 @@ mod hcobs_fam;
 mod readn;
 mod sdq;
 mod sod;
+mod stream;
 mod tlvv;
 mod tlvw;
 mod win;
@@ -35,6 +36,8 @@ fn main() {
         }
         let obs: util::Obs = match family {
             "win" => win::run(line),
+            "chunk" => stream::run_chunk(line),
+            "reader" => stream::run_reader(line),
             "hcobs" => hcobs_fam::run(line),
             "readn" => readn::run(line),
             "sdq" => sdq::run(line),
